@@ -14,7 +14,7 @@ import numpy as np
 
 from engines.procwatch import run_forked
 from vlib import cats, sources
-from vlib.core import ERROR, HELD, VIOLATED, Check, Scratch, result
+from vlib.core import ERROR, HELD, VIOLATED, Check, Scratch, result, case_bits
 
 
 def check_row_requests(events, n, c, passes_expected, what):
@@ -163,7 +163,7 @@ class C18(Check):
                 if "z" in cols:
                     names["redshift_name"] = "z"
                 kw = dict(chunksize=chunk, max_workers=workers)
-                if case["seed"] % 3 == 0:
+                if case_bits(case, "prior") % 3 == 0:
                     # creation over an existing cache with overwrite=True: the input is still read once
                     prior = pd.DataFrame(dict(ra=[1.0, 2.0, 3.0], dec=[0.0, 1.0, 2.0], patch=[0, 1, 1]))
                     Catalog.from_dataframe(tmp / "cat", prior, ra_name="ra", dec_name="dec", patch_name="patch", max_workers=1)
